@@ -209,7 +209,15 @@ fn decode_keys(s: &Schema, keys: &[Box<[u8]>]) -> Result<Vec<Atom>, String> {
             (Ty::Bool, 1) if p.len() == 1 => Atom::Bool(p[0] != 0),
             (Ty::Str, 2) => Atom::Str(String::from_utf8(p.to_vec()).map_err(|_| "stored string key is not UTF-8".to_string())?),
             (Ty::Id, 3) => Atom::Id(p.try_into().map_err(|_| "bad id key length".to_string())?),
-            (Ty::Color, 4) if p.len() >= 8 => Atom::Color(int(&p[..8])?, String::from_utf8_lossy(&p[8..]).into_owned()),
+            (Ty::Color, 4) if p.len() >= 8 => {
+                // payload = value (8 bytes) then the name of the enum *type*
+                if &p[8..] != b"Color" {
+                    return Err(format!("stored enum key names enum {:?}", String::from_utf8_lossy(&p[8..])));
+                }
+                let v = int(&p[..8])?;
+                let n = usize::try_from(v).ok().and_then(|i| crate::schema::COLORS.get(i)).ok_or_else(|| format!("stored enum key has value {v}"))?;
+                Atom::Color(v, n.to_string())
+            }
             _ => return Err(format!("stored key field {name} has tag {tag}, expected type {ty:?}")),
         };
         out.push(a);
